@@ -361,3 +361,16 @@ func init() {
 		"func (k Keeper) AllLightNodeSaleContracts(",
 		"func exceedsTransferLimit(u types.BridgeTransferUsage, l *types.BridgeTransferLimit) bool {\n\treturn u.Total.GT(l.Limit) && u.StartBlockHeight == 0\n}\n\nfunc (k Keeper) AllLightNodeSaleContracts(")
 }
+
+func init() {
+	// fourth generation: positive controls for rules added after the fourth seeding round
+	addMutant(Mutant{"C07-writeback-deferred-in-loop", "C07", "x/consensus/keeper/estimate.go",
+		"\t\t\t\t\tcontinue\n\t\t\t\t}\n\t\t\t\tcommit()\n", "\t\t\t\t\tcontinue\n\t\t\t\t}\n\t\t\t\tdefer commit()\n",
+		"not written back by a defer inside a loop"})
+	addMutant(Mutant{"C19-comparator-nonce-reversed", "C19", "app/mempool/priority_nonce.go",
+		"skiplist.Uint64.Compare(keyA.nonce, keyB.nonce)", "skiplist.Uint64.Compare(keyB.nonce, keyA.nonce)",
+		"component nonce compares the first key with the second"})
+	addMutant(Mutant{"C18-vesting-counted-in-years", "C18", "x/paloma/keeper/keeper.go",
+		"beginTime.AddDate(0, int(license.VestingMonths), 0)", "beginTime.AddDate(int(license.VestingMonths), 0, 0)",
+		"vesting period is counted in months"})
+}
